@@ -63,6 +63,7 @@ inductive Op where
   | extAdd (o : Nat)                          -- external reference taken
   | extUnref (o : Nat)                        -- external reference given back (only if one is held)
   | detach (h len : Nat)                      -- private copy of the heap buffer behind handle h (`buffer::detach`)
+  | reserve (h len : Nat)                     -- `mpt_array_reserve`: private buffer for len elements
   deriving Repr
 
 /-- one operation; requests the drivers reject (`bad-op`) leave the state as it is -/
@@ -75,6 +76,7 @@ def step (s : St) : Op → St
   | .extAdd o => (s.extAdd o).1
   | .extUnref o => if 1 ≤ (s.obj o).ext then s.extUnref o else s
   | .detach h len => if h < s.hnd.length then (s.detach h len).1 else s
+  | .reserve h len => if h < s.hnd.length then (s.reserve h len).1 else s
 
 def run (s : St) : List Op → St
   | [] => s
@@ -116,6 +118,8 @@ theorem step_inv (s : St) (op : Op) (hI : Inv s) : Inv (step s op) := by
                      next => exact hI
   case detach h len => split; next hc => exact detach_inv s h len hI hc
                        next => exact hI
+  case reserve h len => split; next hc => exact reserve_inv s h len hI hc
+                        next => exact hI
 
 /-- **exact** — for every history of take/copy/drop/assign (both forms)/external addref and unref/detach from a state
     where it holds, after every operation and for every object: the counter equals the number of references
@@ -370,5 +374,28 @@ def exChain : St :=
 example : let s := xstep 3 3 exChain (.assign 0 3)
     s.hnd = [some 1, none, none, none, none] ∧ (s.obj 0).alive = false ∧ (s.obj 1).alive = true ∧ (s.obj 1).count = 1 := by
   decide
+
+/-! ### `unique_array<T>::reserve()` on shared buffers that refuse a private copy -/
+
+/-- **insert/resize through a unique_array handle** keep the invariant, and a refused one (the buffer is shared
+    and holds elements: BufferNoCopy) changes NOTHING — the handle still names the shared buffer and is still
+    counted, so the buffer is destroyed when, and only when, the last handle goes -/
+theorem unique_array_reserve (s : St) (a n : Nat) (hI : Inv s) (hh : a < s.hnd.length) :
+    Inv (s.uaInsert a).1 ∧ Inv (s.uaResize a n).1 ∧
+    ((s.uaInsert a).2 = false → (s.uaInsert a).1 = s) ∧ ((s.uaResize a n).2 = false → (s.uaResize a n).1 = s) := by
+  have hp := uaPrivate_inv s a hI hh
+  refine ⟨?_, ?_, ?_, ?_⟩
+  · unfold St.uaInsert; split
+    · exact uaSetLen_inv _ _ _ hp
+    · exact hp
+  · unfold St.uaResize; split
+    · exact uaSetLen_inv _ _ _ hp
+    · exact hp
+  · unfold St.uaInsert; split
+    · intro h; cases h
+    · rename_i hr; intro _; exact uaPrivate_refused s a (by simpa using hr)
+  · unfold St.uaResize; split
+    · intro h; cases h
+    · rename_i hr; intro _; exact uaPrivate_refused s a (by simpa using hr)
 
 end Mpt.C15
